@@ -55,7 +55,7 @@ func realMain() {
 		c.Finish("replay")
 	}
 	rng := hx.NewRNG(c.Seed)
-	nShort, nPebble, nBoundary, lenShort, lenB := 3, 1, 1, 10, 7
+	nShort, nPebble, nBoundary, lenShort, lenB := 5, 1, 3, 10, 8
 	if c.Thorough() {
 		nShort, nPebble, nBoundary, lenShort, lenB = 60, 20, 25, 14, 10
 	}
